@@ -34,6 +34,7 @@ class ObjectDomain(EffectDomain):
     list_outparams = True
     enter_returns_self = True
     closure_cells = True   # closures share their free variables with the defining frame through cells that outlive it
+    generator_objects = True   # a generator function call evaluates to an iterator object (position shared by all holders)
     heap = True            # a list / dict that gets a second owner becomes a heap object: both owners see every change
     IDENTITY_TAGS = EffectDomain.IDENTITY_TAGS + ("inst", "classref", "ctorref", "excclass", "func", "method", "boundmethod", "userfn", "pytype", "seqiter", "itercount")
 
@@ -575,9 +576,10 @@ class ObjectDomain(EffectDomain):
             for r in interp.inline(f, argvals, st.set(key, ()), fr, **inline_kw):
                 ys = r.state.get(key, ())
                 s2 = r.state.set(key, st.get(key, ())) if st.has(key) else type(st)(frozenset((k, v) for k, v in r.state.items if k != key), r.state.log)
-                out.append(exc(r.value, s2) if r.kind == "exc" else val(("tuple",) + tuple(ys), s2))
+                out.append(exc(r.value, s2) if r.kind == "exc" else self._generator_object(ys, s2))
             return out
         return self._wrap_generator(f, interp.inline(f, argvals, st, fr, **inline_kw), fr)
+
 
     # -- decorators ----------------------------------------------------------------------------------
     # Decorators that do not change what a call of the function does, as far as this model goes: descriptors the
@@ -810,7 +812,7 @@ class ObjectDomain(EffectDomain):
                 for r in interp.inline(node, argvals, st.set(key, ()), fr, receiver=fr.receiver, is_method=False, closure_env=fn[2] if len(fn) == 3 else ()):
                     ys = r.state.get(key, ())
                     s2 = r.state.set(key, st.get(key, ())) if st.has(key) else type(st)(frozenset((k, v) for k, v in r.state.items if k != key), r.state.log)
-                    out.append(exc(r.value, s2) if r.kind == "exc" else val(("tuple",) + tuple(ys), s2))
+                    out.append(exc(r.value, s2) if r.kind == "exc" else self._generator_object(ys, s2))
                 return out
             res = interp.inline(node, argvals, st, fr, receiver=fr.receiver, is_method=False, closure_env=fn[2] if len(fn) == 3 else ())
             return self._wrap_generator(node, res, fr)
